@@ -179,15 +179,18 @@ impl Scenario for C15 {
                     let f = sim.fetches[i].clone();
                     if let Some(idx) = w.by_hash.get(&f.hash) {
                         let parent = w.recs[*idx].parent;
-                        let known = {
+                        let (known_in_chain, chain_empty) = {
                             let bc = crate::util::block_on(sim.nodes[f.node].blockchain_lock.read());
-                            bc.blocks.contains_key(&parent)
-                        } || completed.contains(&(f.node, parent));
+                            (bc.blocks.contains_key(&parent), bc.blocks.is_empty())
+                        };
+                        let known = known_in_chain || completed.contains(&(f.node, parent));
                         let fails = sim.faults.fetch_fail_pm > 0 && sim.rng.chance(sim.faults.fetch_fail_pm, 1000);
                         if fails {
                             a = Action::FetchFail(i);
                         } else {
-                            if !known && !(plan.loading_completed && f.node == s) {
+                            // park-and-retry only exists once the node has a chain: the very first block an
+                            // empty node receives is taken as its starting point whatever its height
+                            if !known && !(plan.loading_completed && f.node == s && !chain_empty) {
                                 orphan_risk = true;
                             }
                             completed.push((f.node, f.hash));
